@@ -363,27 +363,24 @@ func ruleNoConsumerCallUnderJoinLock(c *Ctx) {
 
 // startBitCond recognises (x>>7)&1 == 1, x&0x80 != 0, x&0x80 == 0x80 and returns x.
 func startBitCond(cond ssa.Value) (ssa.Value, bool) {
-	if k, ok := bitTest(cond); ok && k == 7 {
-		b := cond.(*ssa.BinOp).X.(*ssa.BinOp).X.(*ssa.BinOp)
-		return b.X, true
-	}
-	b, ok := cond.(*ssa.BinOp)
-	if !ok {
+	x, pos, ok := startBitCondPol(cond)
+	if !ok || !pos {
 		return nil, false
 	}
-	and, ok := stripConv(b.X).(*ssa.BinOp)
-	if !ok || and.Op != token.AND {
-		return nil, false
+	return x, true
+}
+
+// startBitCondPol: (the byte tested, true if the condition holds when bit 7 is set, ok).
+func startBitCondPol(cond ssa.Value) (ssa.Value, bool, bool) {
+	k, pos, ok := bitTestPol(cond)
+	if !ok || k != 7 {
+		return nil, false, false
 	}
-	m, ok := constInt(and.Y)
-	if !ok || m != 0x80 {
-		return nil, false
+	and := stripConv(cond.(*ssa.BinOp).X).(*ssa.BinOp)
+	if shr, isShr := stripConv(and.X).(*ssa.BinOp); isShr && shr.Op == token.SHR {
+		return shr.X, pos, true
 	}
-	k, ok := constInt(b.Y)
-	if ok && (b.Op == token.NEQ && k == 0 || b.Op == token.EQL && k == 0x80) {
-		return and.X, true
-	}
-	return nil, false
+	return and.X, pos, true
 }
 
 func ruleFuKeyframeOnStart(c *Ctx) {
@@ -461,8 +458,14 @@ func ruleFuKeyframeOnStart(c *Ctx) {
 					continue
 				}
 				if ifi, ok := d.Instrs[len(d.Instrs)-1].(*ssa.If); ok {
-					if _, ok := startBitCond(ifi.Cond); ok && d.Succs[0].Dominates(ins.Block()) && len(d.Succs[0].Preds) == 1 {
-						guarded = true
+					if _, pos, ok := startBitCondPol(ifi.Cond); ok {
+						side := 0
+						if !pos {
+							side = 1
+						}
+						if d.Succs[side].Dominates(ins.Block()) && len(d.Succs[side].Preds) == 1 {
+							guarded = true
+						}
 					}
 				}
 			}
@@ -678,25 +681,7 @@ func ruleSyncAnchorOnce(c *Ctx) {
 			return
 		}
 		n++
-		guarded := false
-		for _, d := range fn.Blocks {
-			if d == ins.Block() || !d.Dominates(ins.Block()) {
-				continue
-			}
-			ifi, ok := d.Instrs[len(d.Instrs)-1].(*ssa.If)
-			if !ok {
-				continue
-			}
-			bo, ok := ifi.Cond.(*ssa.BinOp)
-			if !ok || bo.Op != token.EQL {
-				continue
-			}
-			f, _, okf := fieldLoad(stripConv(bo.X))
-			k, okk := constInt(bo.Y)
-			if okf && okk && k == 0 && f.Name() == "RTPTime" && d.Succs[0].Dominates(ins.Block()) && len(d.Succs[0].Preds) == 1 {
-				guarded = true
-			}
-		}
+		guarded := fieldEqEstablished(ins, "RTPTime", 0)
 		c.Decide(guarded, "sync-anchor@"+fname(fn), p.InstrPos(ins), "the anchor is taken only while RTPTime == 0", "every RTCP sender report re-anchors the depacketiser clock: the first frame after a second report jumps (backwards when the report's NTP time lags), so presentation-time differences no longer equal RTP-timestamp differences")
 	})
 	if n == 0 {
